@@ -270,7 +270,7 @@ class Ctx:
         lines = [l for l in open(tracef, encoding="utf-8").read().split("\n") if l]
         idx, newline = corrupt(lines)
         lines[idx] = newline
-        if json.loads(lines[0]).get("ev") not in ("reset", "op"):   # independent events: a window around the corrupted one suffices
+        if json.loads(lines[0]).get("ev") not in ("reset", "op", "start"):   # independent events: a window around the corrupted one suffices
             lo = max(0, idx - 10)
             lines, idx = lines[lo:idx + 10], idx - lo
         p = os.path.join(self.scratch, name + "-corrupt.ndjson")
